@@ -4,12 +4,14 @@ import (
 	"context"
 	"fmt"
 	"path/filepath"
+	"strings"
 	"sync"
 	"time"
 
 	"github.com/form3tech-oss/f1/v2/internal/metrics"
 	"github.com/form3tech-oss/f1/v2/internal/progress"
 	f1testing "github.com/form3tech-oss/f1/v2/pkg/f1/testing"
+	"github.com/prometheus/client_golang/prometheus"
 )
 
 // C17 (a) sequential op logs of the REAL progress.Stats; (b) timed single-worker runs.
@@ -160,6 +162,24 @@ func runC17Measure(name, ending string, n int, bodySleep, cleanupSleep time.Dura
 	if cleanupSleep > 0 {
 		row.ExtraUs = cleanupSleep.Microseconds()
 	}
+	if strings.HasPrefix(name, "second-run/") {
+		// the process has already run this scenario once on the same metrics instance (as an embedding program that
+		// calls f1 repeatedly does): the figures of THIS run still cover its own bodies
+		sr.Metrics = metrics.NewInstance(prometheus.NewRegistry(), true, nil)
+		warm := sr
+		warm.MaxIter = 1
+		wfn := func(*f1testing.T) f1testing.RunFn {
+			return func(t *f1testing.T) {
+				if ending != "" {
+					t.Fail()
+				}
+			}
+		}
+		if _, _, err := warm.do(context.Background(), wfn); err != nil {
+			row.Err = "warm-up run: " + err.Error()
+			return row
+		}
+	}
 	res, m, err := sr.do(context.Background(), fn)
 	if err != nil {
 		row.Err = err.Error()
@@ -220,6 +240,7 @@ func init() {
 			add("body-only/"+e, e, 2, 60*ms, 0, false)
 			add("cleanup-excluded/"+e, e, 1, 40*ms, 250*ms, false)
 			add("queue-wait-excluded/"+e, e, 3, 220*ms, 0, true)
+			add("second-run/"+e, e, 2, 30*ms, 0, false)
 		}
 		wg.Wait()
 		fmt.Println("c17 measurements:", w2.n)
